@@ -418,6 +418,9 @@ class NPShim(object):
     def unique(self, a, axis=None, return_counts=False, **kw):
         if _conc(a):
             return _np.unique(a, axis=axis, return_counts=return_counts, **kw)
+        a = asobj(a)
+        if all(Sc.of(e).is_concrete for e in a.plain().flat):
+            return _np.unique(a.tofloat(), axis=axis, return_counts=return_counts, **kw)
         raise NotImplementedError('unique on symbolic data')
 
     # ------------------------------------------------------- concrete helpers
